@@ -11,6 +11,11 @@ import (
 func (u *UseCase) Begin(ctx context.Context, isoLevel model.TxIsoLevel) (string, error) {
 	id := u.idGen.Generate()
 
+	// A collection pass must see this transaction registered, or choose its
+	// horizon before the sequence below is drawn: never in between.
+	sequence.LockHorizon()
+	defer sequence.UnlockHorizon()
+
 	err := u.txRepo.Store(ctx, model.Transaction{
 		Id:       id,
 		IsoLevel: isoLevel,
